@@ -307,7 +307,16 @@ class C20(Prop):
                     size = rng.choice([mb, mb + 1, 2 * mb + 3, 1])
                 else:
                     size = rng.choice([1, 5, 40, 300])
-                ops.append(['w', gen_chunk(rng, size, counter),
+                chunk = gen_chunk(rng, size, counter)
+                if rng.random() < 0.08:
+                    # text with other line boundaries than \n, newline-only
+                    # and empty chunks
+                    chunk = rng.choice(['\n', '\n\n', '', 'a\rb\n', 'x\x0cy',
+                                        'dos\r\n', 'u\u2028v\n', 'n\x85m',
+                                        '\x1c\n', '10%\r20%\r'])
+                    if mb:
+                        chunk = chunk[:max(1, mb - 1)] if chunk else chunk
+                ops.append(['w', chunk,
                             rng.choice([7, 4242, 99999]),
                             rng.choice([0, 0, 0.25, 1, 1, 3])])
             elif x < 0.87:
